@@ -20,6 +20,7 @@ def main():
     ap.add_argument("--replay")
     ap.add_argument("--collect", action="store_true", help="triage mode: bucket all violations, do not stop")
     ap.add_argument("--only")
+    ap.add_argument("--pins", action="store_true", help="replay pinned known/fixed findings and regression files only")
     args = ap.parse_args()
 
     if os.environ.get("PYTHONHASHSEED") != "0":
@@ -74,7 +75,7 @@ def main():
         return 1
 
     only = set(args.only.split(",")) if args.only else None
-    ev, violations, herrs = core.run_property(mod, args.tier, seed, collect=args.collect, only=only)
+    ev, violations, herrs = core.run_property(mod, args.tier, seed, collect=args.collect, only=only, pins_only=args.pins)
     cov = ev["coverage"]
     print("%s tier=%s seed=%d evaluations=%d distinct_nontrivial=%d wall=%.1fs violations=%d%s" % (
         prop, args.tier, seed, cov["evaluations"], cov["distinct_nontrivial"], ev["wall_s"], violations,
